@@ -278,6 +278,9 @@ func (r *Run) Finish(rule string) {
 	if len(missing) > 0 {
 		cov["open_findings_not_reproduced_in_this_run"] = missing
 	}
+	if r.assume == nil {
+		r.assume = []string{}
+	}
 	ev := map[string]interface{}{
 		"property_id": r.Prop,
 		"tier":        r.tier,
